@@ -92,11 +92,6 @@ theorem vadd_getD (a b : List K) (i : Nat) (ha : i < a.length) (hb : i < b.lengt
   simp [vadd, List.getD_eq_getElem?_getD, List.getElem?_zipWith, List.getElem?_eq_getElem ha,
     List.getElem?_eq_getElem hb]
 
-/-- the noise-free configuration of a `NoisyDetector`: no dark current, unit flat field, zero
-read noise; the random draws are arbitrary -/
-def NoiseOff (g : Geom) (nz : Noise K) : Prop :=
-  nz.dark = 0 ∧ nz.flat = List.replicate g.npix 1 ∧ nz.sigma = 0 ∧ ∀ k, (nz.draws k).length = g.npix
-
 theorem zipWith_mul_ones (a : List K) (n : Nat) (h : a.length = n) :
     List.zipWith (· * ·) a (List.replicate n (1 : K)) = a := by
   induction a generalizing n with
@@ -105,17 +100,6 @@ theorem zipWith_mul_ones (a : List K) (n : Nat) (h : a.length = n) :
     cases n with
     | zero => simp at h
     | succ n => simp at h; simp [List.replicate_succ, ih n h]
-
-theorem zipWith_add_zero_mul (a z : List K) (h : a.length = z.length) :
-    List.zipWith (fun o z => o + (0 : K) * z) a z = a := by
-  induction a generalizing z with
-  | nil => simp
-  | cons x a ih =>
-    cases z with
-    | nil => simp at h
-    | cons y z =>
-      simp only [List.length_cons, Nat.add_right_cancel_iff] at h
-      simp only [List.zipWith_cons_cons, ih z h]; simp
 
 theorem zipWith_add_zero_dark (a : List K) (n : Nat) (dt w : K) (h : a.length = n) :
     List.zipWith (fun x d => x + d * dt * w) a (vzero n : List K) = a := by
@@ -150,5 +134,261 @@ theorem reads_eq_images (g : Geom) (st : St K) (ops : List (Op K)) :
     | integrate p dt w =>
       simp only [reads, run_cons, ih]
       by_cases hp : p.length = g.ninput <;> simp [step, Detector.integrate, hp, images]
+
+/-! ### histories whose integrations all have the size of the input grid -/
+
+/-- the operation is a read-out or an integration of a power array of the size of the input grid -/
+def sizedOp (g : Geom) : Op K → Bool
+  | .integrate p _ _ => decide (p.length = g.ninput)
+  | .readOut => true
+
+/-- every integration of the history has the size of the input grid (decidable) -/
+def WellSized (g : Geom) (ops : List (Op K)) : Prop := ∀ op ∈ ops, sizedOp g op = true
+
+instance (g : Geom) (ops : List (Op K)) : Decidable (WellSized g ops) := by
+  unfold WellSized; infer_instance
+
+/-- the exposures of a history, with no size test at all: the integrations before each read-out -/
+def exposuresAll : List (List K × K × K) → List (Op K) → List (List (List K × K × K))
+  | _, [] => []
+  | cur, .readOut :: ops => cur :: exposuresAll [] ops
+  | cur, .integrate p dt w :: ops => exposuresAll (cur ++ [(p, dt, w)]) ops
+
+theorem WellSized.tail {g : Geom} {op : Op K} {ops : List (Op K)} (h : WellSized g (op :: ops)) :
+    WellSized g ops := fun o ho => h o (by simp [ho])
+
+theorem WellSized.head_integrate {g : Geom} {p : List K} {dt w : K} {ops : List (Op K)}
+    (h : WellSized g (.integrate p dt w :: ops)) : p.length = g.ninput := by
+  have := h (.integrate p dt w) (by simp)
+  simpa [sizedOp] using this
+
+theorem exposures_eq_all (g : Geom) (ops : List (Op K)) (cur : List (List K × K × K))
+    (h : WellSized g ops) : exposures g cur ops = exposuresAll cur ops := by
+  induction ops generalizing cur with
+  | nil => rfl
+  | cons op ops ih =>
+    cases op with
+    | readOut => simp only [exposures, exposuresAll, ih _ h.tail]
+    | integrate p dt w =>
+      simp only [exposures, exposuresAll, h.head_integrate, if_true, ih _ h.tail]
+
+/-- every completed exposure of a history consists of integrations of the right size -/
+theorem exposures_valid (g : Geom) (ops : List (Op K)) (cur : List (List K × K × K))
+    (hc : Valid g cur) : ∀ e ∈ exposures g cur ops, Valid g e := by
+  induction ops generalizing cur with
+  | nil => intro e he; simp [exposures] at he
+  | cons op ops ih =>
+    intro e he
+    cases op with
+    | readOut =>
+      simp only [exposures, List.mem_cons] at he
+      rcases he with rfl | he
+      · exact hc
+      · exact ih [] (by intro x hx; simp at hx) e he
+    | integrate p dt w =>
+      by_cases hp : p.length = g.ninput
+      · simp only [exposures, hp, if_true] at he
+        refine ih _ ?_ e he
+        intro x hx
+        rcases List.mem_append.mp hx with h | h
+        · exact hc x h
+        · simp at h; subst h; exact hp
+      · simp only [exposures, hp, if_false] at he
+        exact ih cur hc e he
+
+/-! ### the noisy detector with every noise source off -/
+
+section
+variable [DecidableEq K]
+
+/-- every noise parameter has its "off" value and the exposure in progress is free of dark current -/
+structure ParamsOff (g : Geom) (pst : PSt K) : Prop where
+  flat : pst.flat = List.replicate g.npix 1
+  dark : pst.dark = vzero g.npix
+  sigma : pst.sigma = vzero g.npix
+  photon : pst.photon = false
+  clean : pst.clean = true
+
+theorem allOff_paramsOff (g : Geom) : ParamsOff g (allOff g : PSt K) :=
+  ⟨rfl, by simp [allOff, pInit, vzero], rfl, rfl, rfl⟩
+
+theorem ParamsOff.off {g : Geom} {pst : PSt K} (h : ParamsOff g pst) : pst.off g = true := by
+  simp [PSt.off, h.flat, h.sigma, h.photon, h.clean]
+
+theorem ParamsOff.deterministic {g : Geom} {pst : PSt K} (h : ParamsOff g pst) :
+    pst.deterministic g = true := by
+  simp [PSt.deterministic, h.sigma, h.photon]
+
+/-- operations that switch nothing on keep everything off -/
+theorem ParamsOff.step {g : Geom} {pst : PSt K} (h : ParamsOff g pst) (op : POp K)
+    (ho : OffOp g op = true) : ParamsOff g (pStep g pst op).1 := by
+  cases op with
+  | integrate p dt w =>
+    by_cases hp : p.length = g.ninput
+    · simp only [pStep, hp, if_true]
+      exact ⟨h.flat, h.dark, h.sigma, h.photon, by simp [h.clean, h.dark]⟩
+    · simpa [pStep, hp] using h
+  | readOut =>
+    rw [pStep_readOut_fst]
+    exact ⟨h.flat, h.dark, h.sigma, h.photon, rfl⟩
+  | setFlat m => simp only [OffOp, decide_eq_true_eq] at ho; exact ⟨ho, h.dark, h.sigma, h.photon, h.clean⟩
+  | setDark d => simp only [OffOp, decide_eq_true_eq] at ho; exact ⟨h.flat, ho, h.sigma, h.photon, h.clean⟩
+  | setSigma s => simp only [OffOp, decide_eq_true_eq] at ho; exact ⟨h.flat, h.dark, ho, h.photon, h.clean⟩
+  | setPhoton b =>
+    simp only [OffOp, Bool.not_eq_true'] at ho
+    exact ⟨h.flat, h.dark, h.sigma, ho, h.clean⟩
+
+theorem offOp_lift (g : Geom) (op : Op K) : OffOp g (lift op) = true := by
+  cases op <;> rfl
+
+theorem pRun_cons (g : Geom) (st : PSt K) (op : POp K) (ops : List (POp K)) :
+    pRun g st (op :: ops) =
+      ((pRun g (pStep g st op).1 ops).1, (pStep g st op).2 :: (pRun g (pStep g st op).1 ops).2) := rfl
+
+/-- one `integrate` / `read_out` on an all-off noisy detector does what the noiseless detector does -/
+theorem pStep_lift_off {g : Geom} {pst : PSt K} {st : St K} (h : ParamsOff g pst)
+    (hacc : pst.acc = st.acc) (hlen : ∀ a, st.acc = some a → a.length = g.npix) (op : Op K) :
+    (pStep g pst (lift op)).2 = (step g st op).2 ∧ (pStep g pst (lift op)).1.acc = (step g st op).1.acc ∧
+      ∀ a, (step g st op).1.acc = some a → a.length = g.npix := by
+  cases op with
+  | readOut =>
+    have hl : (st.acc.getD (vzero g.npix)).length = g.npix := by
+      cases h' : st.acc with
+      | none => simp [vzero]
+      | some a => simpa using hlen a h'
+    refine ⟨?_, ?_, ?_⟩
+    · simp only [lift, pStep, h.deterministic, if_true, step, readOut, hacc, h.flat]
+      rw [zipWith_mul_ones _ _ hl]
+    · simp only [lift]; rw [pStep_readOut_fst]; rfl
+    · intro a ha; simp [step, readOut] at ha
+  | integrate p dt w =>
+    by_cases hp : p.length = g.ninput
+    · have hc := binCharge_length g p dt w hp
+      refine ⟨?_, ?_, ?_⟩
+      · simp [lift, pStep, step, Detector.integrate, hp]
+      · simp only [lift, pStep, hp, if_true, step, Detector.integrate, hacc, h.dark]
+        rw [zipWith_add_zero_dark _ _ dt w (accAdd_length g st.acc _ hc hlen)]
+      · intro a ha
+        simp only [step, Detector.integrate, hp, if_true, Option.some.injEq] at ha
+        subst ha
+        exact accAdd_length g st.acc _ hc hlen
+    · refine ⟨?_, ?_, ?_⟩
+      · simp [lift, pStep, step, Detector.integrate, hp]
+      · simpa [lift, pStep, step, Detector.integrate, hp] using hacc
+      · simpa [step, Detector.integrate, hp] using hlen
+
+end
+
+/-! ### reference-level model (aliasing) -/
+
+/-- well-formedness of a reference-level state: handles and the accumulator point into the heap, and the
+caller holds no handle on the accumulator -/
+structure RInv (st : RSt K) : Prop where
+  known_lt : ∀ r ∈ st.known, r < st.heap.length
+  acc_lt : ∀ a, st.acc = some a → a < st.heap.length
+  acc_private : ∀ a, st.acc = some a → a ∉ st.known
+
+/-- the value-level state a reference-level state stands for -/
+def absSt (st : RSt K) : St K := { acc := st.accVal }
+
+theorem RInv.init : RInv ({} : RSt K) := ⟨by simp, by simp, by simp⟩
+
+theorem at_append_lt (st : RSt K) (x : List K) (r : Nat) (h : r < st.heap.length) :
+    ({ st with heap := st.heap ++ [x] } : RSt K).at r = st.at r := by
+  simp [RSt.at, List.getD_eq_getElem?_getD, List.getElem?_append_left h]
+
+theorem getD_append_lt (l : List (List K)) (x : List K) (r : Nat) (h : r < l.length) :
+    (l ++ [x]).getD r [] = l.getD r [] := by
+  simp [List.getD_eq_getElem?_getD, List.getElem?_append_left h]
+
+theorem getD_append_self (l : List (List K)) (x : List K) : (l ++ [x]).getD l.length [] = x := by
+  simp [List.getD_eq_getElem?_getD]
+
+theorem getD_set_ne (l : List (List K)) (x : List K) (r a : Nat) (h : r ≠ a) :
+    (l.set r x).getD a [] = l.getD a [] := by
+  simp [List.getD_eq_getElem?_getD, List.getElem?_set_ne h]
+
+theorem rStep_inv (g : Geom) (st : RSt K) (op : ROp K) (h : RInv st) : RInv (rStep g st op).1 := by
+  obtain ⟨h1, h2, h3⟩ := h
+  cases op with
+  | alloc v =>
+    refine ⟨?_, ?_, ?_⟩ <;> simp only [rStep, List.length_append, List.length_singleton, List.mem_append, List.mem_singleton]
+    · rintro r (hr | rfl)
+      · have := h1 r hr; omega
+      · omega
+    · intro a ha; have := h2 a ha; omega
+    · intro a ha
+      rintro (hk | rfl)
+      · exact h3 a ha hk
+      · have := h2 _ ha; omega
+  | write r v =>
+    simp only [rStep]
+    split
+    · exact ⟨by simpa using h1, by simpa using h2, h3⟩
+    · exact ⟨h1, h2, h3⟩
+  | integrate buf dt w =>
+    simp only [rStep]
+    split
+    · refine ⟨?_, ?_, ?_⟩ <;> simp only [List.length_append, List.length_singleton, Option.some.injEq]
+      · intro r hr; have := h1 r hr; omega
+      · rintro a rfl; omega
+      · rintro a rfl hk; have := h1 _ hk; omega
+    · exact ⟨h1, h2, h3⟩
+  | readOut =>
+    refine ⟨?_, ?_, ?_⟩ <;> simp only [rStep, List.length_append, List.length_singleton, List.mem_append, List.mem_singleton]
+    · rintro r (hr | rfl)
+      · have := h1 r hr; omega
+      · omega
+    · intro a ha; simp at ha
+    · intro a ha; simp at ha
+
+theorem accVal_congr (st st' : RSt K) (hacc : st'.acc = st.acc)
+    (hheap : ∀ a, st.acc = some a → st'.heap.getD a [] = st.heap.getD a []) : st'.accVal = st.accVal := by
+  cases ha : st.acc with
+  | none => simp [RSt.accVal, ha, hacc]
+  | some a => simp only [RSt.accVal, hacc, ha, Option.map_some, RSt.at, hheap a ha]
+
+theorem absSt_alloc (g : Geom) (st : RSt K) (v : List K) (h : RInv st) :
+    absSt (rStep g st (.alloc v)).1 = absSt st := by
+  have := accVal_congr st { st with heap := st.heap ++ [v], known := st.known ++ [st.heap.length] } rfl
+    (fun a ha => getD_append_lt _ _ _ (h.acc_lt a ha))
+  simp only [absSt, rStep, this]
+
+theorem absSt_write (g : Geom) (st : RSt K) (r : Nat) (v : List K) (h : RInv st) :
+    absSt (rStep g st (.write r v)).1 = absSt st := by
+  simp only [rStep]
+  split
+  · rename_i hk
+    have hk' : r ∈ st.known := by simpa using hk
+    have := accVal_congr st { st with heap := st.heap.set r v } rfl
+      (fun a ha => getD_set_ne _ _ _ _ (fun e => h.acc_private a ha (by rw [← e]; exact hk')))
+    simp only [absSt, this]
+  · rfl
+
+theorem absSt_integrate (g : Geom) (st : RSt K) (buf : Nat) (dt w : K) (h : RInv st) :
+    absSt (rStep g st (.integrate buf dt w)).1 = (step g (absSt st) (.integrate (st.at buf) dt w)).1 := by
+  simp only [rStep, step, Detector.integrate]
+  split
+  · simp only [absSt, RSt.accVal, Option.map_some, RSt.at, getD_append_self]
+  · rfl
+
+theorem absSt_readOut (g : Geom) (st : RSt K) :
+    absSt (rStep g st .readOut).1 = (step g (absSt st) .readOut).1 ∧
+      (step g (absSt st) .readOut).2 = .image ((rStep g st .readOut).1.at st.heap.length) := by
+  constructor
+  · simp [rStep, step, readOut, absSt, RSt.accVal]
+  · simp only [rStep, step, readOut, absSt, RSt.at, getD_append_self]
+
+theorem rRun_cons (g : Geom) (st : RSt K) (op : ROp K) (ops : List (ROp K)) :
+    rRun g st (op :: ops) = ((rRun g (rStep g st op).1 ops).1, (rStep g st op).2 :: (rRun g (rStep g st op).1 ops).2) := rfl
+
+theorem rStep_known_sub (g : Geom) (st : RSt K) (op : ROp K) : ∀ r ∈ st.known, r ∈ (rStep g st op).1.known := by
+  intro r hr
+  cases op with
+  | alloc v => simp [rStep, hr]
+  | write r' v => simp only [rStep]; split <;> exact hr
+  | integrate buf dt w => simp only [rStep]; split <;> exact hr
+  | readOut => simp [rStep, hr]
+
 
 end HcipyVerif.Detector
